@@ -374,23 +374,28 @@ func (Engine) Execute(run *simcore.Run) {
 			if !begin(dt) {
 				return
 			}
-			if !w.idleAccrual(idle, st.Op) {
+			if !w.idleAccrual(idle, st.Op) && run.Stop() {
 				return
 			}
 			run.Event(st.Op, "ok")
 			run.Logf("%d %s h=%d t=%s hash=%x", i, st.Op, n.Height, n.Time.Sub(simchain.GenesisTime), n.LastAppHash[:6])
 		default:
-			if !w.guardedStep(i, st) {
+			if !w.guardedStep(i, st) && run.Stop() {
 				return
 			}
 		}
+		// an oracle of a property other than the one being checked does not end the run: every
+		// property's check must be able to reach its own oracles on a tree that also breaks another
 		if run.Stop() {
 			return
 		}
-		if !w.bookkeeping(st.Op) || !w.rewardsTier1(st.Op) {
+		if !w.bookkeeping(st.Op) && run.Stop() {
 			return
 		}
-		if (i%8 == 7 || i == len(p.Steps)-1) && !w.exitEverybody(st, i) {
+		if !w.rewardsTier1(st.Op) && run.Stop() {
+			return
+		}
+		if (i%8 == 7 || i == len(p.Steps)-1) && !w.exitEverybody(st, i) && run.Stop() {
 			return
 		}
 	}
